@@ -70,18 +70,67 @@ def equal_variants(g, t):
     out.append(("reformatted", Triangle([
         rebuild(c, values={k: refmt(v) for k, v in reversed(list(c.values.items()))}, metadata=remeta(c.metadata))
         for c in cells])))
+    out += serial_variants(t)
+    return out
+
+
+def serial_variants(t, tag=""):
+    """Copies of t that went through the library's own writers and readers: must be == t with equal hashes."""
+    from bermuda import Triangle
+
+    out = []
     try:
-        buf = io.BytesIO()
+        os.makedirs("/verif/build/C02", exist_ok=True)
         p = f"/verif/build/C02/rt_{os.getpid()}.trib"
         t.to_binary(p)
-        out.append(("binary-roundtrip", Triangle.from_binary(p)))
+        out.append(("binary-roundtrip" + tag, Triangle.from_binary(p)))
         os.unlink(p)
     except Exception:  # noqa: BLE001  -- serialisation is the business of C05/C07
         pass
     try:
-        out.append(("json-roundtrip", Triangle.from_dict(t.to_dict())))
+        out.append(("json-roundtrip" + tag, Triangle.from_dict(t.to_dict())))
     except Exception:  # noqa: BLE001
         pass
+    return out
+
+
+def derived_bases(g, t):
+    """Triangles derived from t that stress representation corners of equality: a slice with risk_basis None
+    (a value writers may drop), NumPy integer scalars beyond 2**53 (not representable as a double), NumPy
+    float / bool scalars.  Each is paired with its own serialisation round trips (must be == with equal hashes)
+    and with t itself when the change is a real edit (must be !=)."""
+    from bermuda import Metadata, Triangle
+
+    r = g.r
+    cells = list(t.cells)
+    out = []
+    # (1) risk_basis None on the first slice's metadata
+    m0 = cells[0].metadata
+    try:
+        m_none = Metadata(**{**{x: getattr(m0, x) for x in ATTRS}, "risk_basis": None,
+                             "details": dict(m0.details), "loss_details": dict(m0.loss_details)})
+        t_none = Triangle([rebuild(c, metadata=m_none) if c.metadata == m0 else c for c in cells])
+        out.append(("risk_basis=None", t_none, m0.risk_basis is not None))
+    except Exception:  # noqa: BLE001
+        pass
+    # (2) big NumPy integer scalars
+    i = r.randrange(len(cells))
+    c = cells[i]
+    scal = [k for k, v in c.values.items() if isinstance(v, (int, float)) and not isinstance(v, bool)]
+    if scal:
+        k0 = r.choice(scal)
+        big = r.choice([2**53 + 1, -(2**53) - 1, 2**62 + 3, 2**63 - 1, -(2**63) + 1, 2**53 + 2 * r.randrange(1, 10**6) + 1])
+        for nm, val in (("np.int64-big", np.int64(big)), ("int-big", big)):
+            try:
+                t_big = Triangle(cells[:i] + [rebuild(c, values={**c.values, k0: val})] + cells[i + 1:])
+                out.append((nm, t_big, True))
+            except Exception:  # noqa: BLE001
+                pass
+        try:
+            t_np = Triangle(cells[:i] + [rebuild(c, values={**c.values, k0: np.float64(c.values[k0])})] + cells[i + 1:])
+            out.append(("np.float64-scalar", t_np, False))
+        except Exception:  # noqa: BLE001
+            pass
     return out
 
 
@@ -211,8 +260,12 @@ def run(ctx):
             continue
         ctx.hist("basis:" + info["basis"])
         ctx.hist("values:" + info["values"])
-        pairs = [(n, v, True) for n, v in equal_variants(g, t)] + [(n, v, False) for n, v in edited_variants(g, t)]
-        for name, v, want in pairs:
+        pairs = [(n, t, v, True) for n, v in equal_variants(g, t)] + [(n, t, v, False) for n, v in edited_variants(g, t)]
+        for dn, base, is_edit in derived_bases(g, t):
+            pairs.append((dn, t, base, not is_edit))
+            pairs += [(n, base, v, True) for n, v in serial_variants(base, tag="(" + dn + ")")]
+        t_gen = t
+        for name, t, v, want in pairs:
             ctx.hist("variant:" + name.split("[")[0])
             try:
                 got, got_r = (t == v), (v == t)
